@@ -52,6 +52,28 @@ Theorem c18_mailbox_lock_order : MailboxTables.order_pairs_ranked = true /\
 Proof. vm_compute. repeat split; reflexivity. Qed.
 Print Assumptions c18_mailbox_lock_order.
 
+(* ... and the lock discipline of their shared fields: two accesses to one field of ClientConn / ServerConn / Client /
+   Server / NoiseGrpcConn / ConnData / connKit / the two client transports, one of them a write, by code that can run
+   in two goroutines at once (the methods an application may call concurrently, the GBN connection's send and receive
+   callbacks, Dial, Accept), hold a common mutex - counting the mutexes that every call site of the accessing function
+   holds (the closure is stable) *)
+Theorem c18_mailbox_lock_discipline :
+  MailboxTables.lock_violations = [] /\ MailboxTables.inh_stable = true.
+Proof. vm_compute. split; reflexivity. Qed.
+Print Assumptions c18_mailbox_lock_discipline.
+
+(* the analysis is not vacuous: it sees the guarded accesses (the transport's socket is written by ConnectSend under
+   the sendMu of its only caller), and an unguarded write next to a guarded read is reported *)
+Example c18_mailbox_discipline_nontrivial :
+  existsb (fun e => String.eqb (fst e) "websocketTransport.ConnectSend" && MailboxTables.mem "sendMu" (snd e))
+          MailboxTables.inh_table = true /\
+  Nat.leb 100 (List.length MailboxTables.acc_roles) = true /\
+  MailboxTables.conflict
+    (("S", "f", true, "S.a", [], false), ["api"]) (("S", "f", false, "S.b", ["mu"], false), ["gbn-recv"]) = true /\
+  MailboxTables.conflict
+    (("S", "f", true, "S.a", ["mu"], false), ["api"]) (("S", "f", false, "S.b", ["mu"], false), ["gbn-recv"]) = false.
+Proof. vm_compute. repeat split; reflexivity. Qed.
+
 (* no way out of a function leaves one of its mutexes locked *)
 Theorem c18_no_lock_left_held : leaked_locks = [].
 Proof. vm_compute. reflexivity. Qed.
